@@ -133,7 +133,7 @@ func VerifC08Siblings() {
 		for _, sc := range scripts {
 			if sc.blk != nil {
 				// a built block keeps exactly the symbols and the fact its builder was given
-				ok := len(*sc.blk.symbols) == len(sc.blkSym) && len(*sc.blk.facts) == 1
+				ok := len(*sc.blk.symbols) == len(sc.blkSym) && len(*sc.blk.facts) == 1 && len(sc.blk.checks) == 0 && len(sc.blk.rules) == 0 && sc.blk.context == ""
 				if ok {
 					r := true
 					for i, x := range *sc.blk.symbols {
@@ -168,6 +168,10 @@ func VerifC08Siblings() {
 				sc.blk = sc.bb.Build()
 				sc.blkSym = append([]string{}, (*sc.blk.symbols)...)
 			default:
+				// the builder keeps being used after Build: the block already built must not change
+				sc.bb.AddFact(Fact{Predicate{Name: "late", IDs: []Term{Integer(8)}}})
+				sc.bb.AddCheck(Check{Queries: []Rule{{Head: Predicate{Name: "query"}, Body: []Predicate{{Name: "late", IDs: []Term{Variable("v")}}}}}})
+				sc.bb.SetContext("changed")
 				t, err := parent.Append(rng, sc.blk)
 				if err != nil {
 					// symbol overlap between the block and the token is a legitimate refusal
